@@ -1,7 +1,7 @@
 #!/bin/sh
 # tools/seeded.sh <ID> <worktree> [extra check ids...] : confirm an independently written breaking change and run the checks against it
 id=$1; wt=$2; shift 2
-dst=/verif/seeded/$id
+dst=/verif/seeded/${DSTNAME:-$id}
 mkdir -p $dst
 cp $wt/seed/patch.diff $wt/seed/demo.py $wt/seed/meta.json $dst/ 2>/dev/null || { echo "seed files missing in $wt/seed"; exit 2; }
 cd $wt || exit 2
